@@ -5,7 +5,9 @@
    pair <be> <w> <nc> <shape> <words> <offset>                  -> ok <hex>    whole data file
    mgh <be> <w> <nc> <shape> <words> <hdrhex> <footerhex>       -> ok <hex>    whole .mgh file
    read <be> <w> <nc> <shape> <offset> <filehex>                -> ok <words in C order> | err short
-   mghshape <shape>                                             -> ok <shape> | err refuse *)
+   mghshape <shape>                                             -> ok <shape> | err refuse
+   decide <has_slope> <has_inter> <mid> <did> <size0> <allzero> <nofinite> <mn> <mx>
+        -> ok <class> <noscale|scale|err_writer> <route> [<slope> <inter>] | err no_writer   (ids of Tables.dtypes) *)
 let natlist_of_string s = List.map (fun z -> nat_of_int (int_of_z z)) (zlist_of_string s)
 let string_of_natlist l = "[" ^ String.concat "," (List.map (fun n -> string_of_int (int_of_nat n)) l) ^ "]"
 let rec group n l = if l = [] then [] else take_n n l :: group n (drop_n n l)
@@ -36,5 +38,22 @@ let handle op args = match op, args with
     (match mgh_shape (natlist_of_string sh) with
      | Some s -> "ok " ^ string_of_natlist s
      | None -> "err refuse")
+  | "decide", [hs; hi; mi; di; s0; az; nf; mn; mx] ->
+    let find i = List.find (fun t -> int_of_z t.dt_id = int_of_string i) dtypes in
+    let m = find mi and d = find di in
+    let info = { size0 = bool_of_string s0; allzero = bool_of_string az; nofinite = bool_of_string nf;
+                 imn = z_of_string mn; imx = z_of_string mx } in
+    (match make_array_writer (bool_of_string hs) (bool_of_string hi) with
+     | None -> "err no_writer"
+     | Some c ->
+       let cn = (match c with WPlain -> "ArrayWriter" | WSlope -> "SlopeArrayWriter" | WSlopeInter -> "SlopeInterArrayWriter") in
+       let r = (match write_route can_cast_table m d with
+                | RDirect -> "direct" | RFloatOut -> "floatout" | RClipCast -> "clipcast" | RScalePipeline -> "scalepipe") in
+       (match scaling_needed can_cast_table c m d info with
+        | NoScale -> (match writer_params can_cast_table c m d info with
+                      | Some (s, i) -> "ok " ^ cn ^ " noscale " ^ r ^ " " ^ string_of_z s ^ " " ^ string_of_z i
+                      | None -> "err driver:params")
+        | Scale -> "ok " ^ cn ^ " scale " ^ r
+        | ErrWriter -> "ok " ^ cn ^ " err_writer " ^ r))
   | _ -> "err driver:badop"
 let () = run_lines handle
